@@ -524,9 +524,13 @@ def _dedupe_variants(L):
     return [first] if first == last else [first, last]
 
 
-def _assign(a: A, c, L):
+def _assign(a: A, c, L, last_wins=False):
     res = []
-    for order in _dedupe_variants(list(L)):
+    variants = _dedupe_variants(list(L))
+    if last_wins:
+        # 'x // t' and 'x.children += t' are documented as synonyms of children.append(t): a member that is added again goes last
+        variants = variants[-1:]
+    for order in variants:
         b = a.copy()
         for v in list(_lst(b, c)):
             if v not in order:
@@ -613,9 +617,9 @@ def effect(U, a: A, op):
     if f == 'list=':
         return _assign(a, op[1], op[2]), None
     if f in ('list+=', '//'):
-        return _assign(a, op[1], list(_lst(a, op[1])) + list(op[2])), None
+        return _assign(a, op[1], list(_lst(a, op[1])) + list(op[2]), last_wins=len(op[2]) == 1), None
     if f == '//1':
-        return _assign(a, op[1], list(_lst(a, op[1])) + [op[2]]), None
+        return _assign(a, op[1], list(_lst(a, op[1])) + [op[2]], last_wins=True), None
     if f == 'append':
         b = a.copy()
         _attach(b, op[2], op[1])
